@@ -154,6 +154,16 @@ def specLog : List Op → List (Nat × Op) → List (Nat × Out)
   | _, [] => []
   | h, (t, op) :: rest => (t, specOp h op) :: specLog (h ++ [op]) rest
 
+/-- do the calls sit in the log in the order in which they sampled the kernel (statement of
+    `C10_concurrent_Full`, first part)? Thread ids and raw snapshots are compared. -/
+def inSamplingOrder (s : Sys) : Bool :=
+  let key : Nat × Op → Option (Nat × Raw) := fun e => match e.2 with
+    | .call _ _ raw => some (e.1, raw)
+    | _ => none
+  let logged := s.log.filterMap key
+  let sampled := s.samples.filterMap key
+  logged == sampled.take logged.length && sampled.length ≤ logged.length + 1
+
 def jOuts (l : List (Nat × Out)) : Json := jList (fun p => Json.arr #[jNat p.1, jOut p.2]) l
 
 def handle (d : DSt) (j : Json) : R (DSt × Json) := do
@@ -162,7 +172,8 @@ def handle (d : DSt) (j : Json) : R (DSt × Json) := do
     return (⟨St.init, CSt.init, [], []⟩, ok (Json.str "reset"))
   if op == "names" then
     return (d, jObj [("disk", Json.str (nameStr .disk)), ("net", Json.str (nameStr .net)),
-                     ("diskper", Json.str (nameStr .diskPer))])
+                     ("diskper", Json.str (nameStr .diskPer)),
+                     ("sample_under_lock", Json.bool cfg.sampleUnderLock)])
   if op == "sched" then
     let acts ← field j "acts" >>= asList parseAct
     match runC cfg Sys.init acts with
@@ -171,7 +182,8 @@ def handle (d : DSt) (j : Json) : R (DSt × Json) := do
       return (d, jObj [("model", jObj [("kind", "sched"), ("outs", jOuts s.outs),
                                         ("serial", jOuts (serial cfg St.init s.log).2),
                                         ("order", jList jNat (s.log.map (·.1))),
-                                        ("lock_free", Json.bool s.lock.isNone)]),
+                                        ("lock_free", Json.bool s.lock.isNone),
+                                        ("in_sampling_order", Json.bool (inSamplingOrder s))]),
                        ("spec", jOuts (specLog [] s.log))])
   if op == "fcall" || op == "fclear" || op == "fclearall" then
     let fo : FOp ← (
